@@ -342,6 +342,8 @@ pub fn cond_contexts() -> Vec<Ctx> {
         Ctx { name: "(?(□)a|b)", pre: 0, build: |h, _| if h == Empty || matches!(h, Backref(_)) { h } else { CondExpr(bx(h), bx(Lit('a')), bx(Lit('b'))) } },
         Ctx { name: "(?(□)a)", pre: 0, build: |h, _| if h == Empty || matches!(h, Backref(_)) { h } else { CondExpr(bx(h), bx(Lit('a')), bx(Empty)) } },
         Ctx { name: "(?(a)□|b)", pre: 0, build: |h, _| CondExpr(bx(Lit('a')), bx(h), bx(Lit('b'))) },
+        Ctx { name: "(?(a)□)", pre: 0, build: |h, _| if h == Empty { h } else { CondExpr(bx(Lit('a')), bx(h), bx(Empty)) } },
+        Ctx { name: "(a)?(?(1)□)", pre: 1, build: |h, g0| if h == Empty { h } else { cat(vec![Repeat(bx(g(Lit('a'))), 0, Some(1), Q::Greedy), CondGroup(g0 + 1, bx(h), bx(Empty))]) } },
         Ctx { name: "(?(a)b|□)", pre: 0, build: |h, _| CondExpr(bx(Lit('a')), bx(Lit('b')), bx(h)) },
         Ctx { name: "(a)?(?(1)□|b)", pre: 1, build: |h, g0| cat(vec![Repeat(bx(g(Lit('a'))), 0, Some(1), Q::Greedy), CondGroup(g0 + 1, bx(h), bx(Lit('b')))]) },
         Ctx { name: "(a)?(?(1)b|□)", pre: 1, build: |h, g0| cat(vec![Repeat(bx(g(Lit('a'))), 0, Some(1), Q::Greedy), CondGroup(g0 + 1, bx(Lit('b')), bx(h))]) },
